@@ -391,10 +391,19 @@ def run(ctx) -> None:
     r3.expect(seen_owner.get("up", 0) >= 1 and seen_owner.get("down", 0) >= 1 and seen_owner.get("soc", 0) >= 2,
               f"block stores found per owner: {seen_owner}", f, f.node,
               f"get_system_R: expected block stores for up, down and soc (Ham_SOC, SS); found {seen_owner}")
-    t = norm(f.node)
     merged_name = mst.targets[0].elts[0].id
-    r3.check("system_R.wannier_centers_cart = self.wannier_centers_cart.copy()" in t and f"system_R.rvec = {merged_name}" in t,
-             "the plain system gets the merged R-vectors and the interlaced centres", f, f.node,
+    GS_ = Sem(idx, f)
+    GS_.keep_names = {merged_name}
+    okwcc = okrv = False
+    for s_ in stmts(f.node):
+        if isinstance(s_, ast.Assign) and len(s_.targets) == 1 and isinstance(s_.targets[0], ast.Attribute) and isinstance(s_.targets[0].value, ast.Name):
+            tv = GS_.rnorm(s_.value, GS_.cfg.node(s_))
+            if s_.targets[0].attr == "wannier_centers_cart" and tv in ("self.wannier_centers_cart.copy()", "np.copy(self.wannier_centers_cart)",
+                                                                      "np.array(self.wannier_centers_cart)", "self.wannier_centers_cart"):
+                okwcc = True
+            if s_.targets[0].attr == "rvec" and tv == merged_name:
+                okrv = True
+    r3.check(okwcc and okrv, "the plain system gets the merged R-vectors and the interlaced centres", f, f.node,
              "get_system_R no longer transfers centres / merged R-vectors", stmt="centres+rvec")
 
     # ---------------------------------------------------------------- R25.4
